@@ -880,13 +880,15 @@ static void iauth_read(evutil_socket_t fd, short events, void *iauth_in_v)
             parse_disconnect(req);
             break;
         case 'N':
-            parse_hostname(req, argv[1]);
+            if (argc > 1)
+                parse_hostname(req, argv[1]);
             break;
         case 'd':
             parse_no_hostname(req);
             break;
         case 'P':
-            parse_password(req, argv[1]);
+            if (argc > 1)
+                parse_password(req, argv[1]);
             break;
         case 'U':
             parse_user_info(req, argc, argv);
@@ -895,7 +897,8 @@ static void iauth_read(evutil_socket_t fd, short events, void *iauth_in_v)
             parse_ident(req, argv[1]);
             break;
         case 'n':
-            parse_nick(req, argv[1]);
+            if (argc > 1)
+                parse_nick(req, argv[1]);
             break;
         case 'H':
             parse_hurry_up(req);
